@@ -875,3 +875,54 @@ func constLeaves(t *Term) bool {
 	constLeafMemo[t] = r
 	return r
 }
+
+// Subst rebuilds t with the variable `from` replaced by `to` (same sort). Terms not mentioning
+// `from` are returned unchanged; rebuilt nodes go through the simplifying constructors where one
+// exists, otherwise they are interned as they are.
+func Subst(t, from, to *Term) *Term {
+	memo := map[*Term]*Term{}
+	var walk func(t *Term) *Term
+	walk = func(t *Term) *Term {
+		if t == from {
+			return to
+		}
+		if len(t.args) == 0 {
+			return t
+		}
+		if r, ok := memo[t]; ok {
+			return r
+		}
+		changed := false
+		na := make([]*Term, len(t.args))
+		for i, a := range t.args {
+			na[i] = walk(a)
+			if na[i] != a {
+				changed = true
+			}
+		}
+		r := t
+		if changed {
+			switch t.op {
+			case "not":
+				r = Not(na[0])
+			case "and":
+				r = And(na...)
+			case "or":
+				r = Or(na...)
+			case "ite":
+				r = Ite(na[0], na[1], na[2])
+			case "=":
+				r = Eq(na[0], na[1])
+			case "<":
+				r = ILt(na[0], na[1])
+			case "<=":
+				r = ILe(na[0], na[1])
+			default:
+				r = TS.intern(&Term{op: t.op, args: na, sort: t.sort, name: t.name, ival: t.ival, ext: t.ext})
+			}
+		}
+		memo[t] = r
+		return r
+	}
+	return walk(t)
+}
